@@ -236,3 +236,79 @@ Proof.
     apply r2_at_fee; auto.
   - destruct Hne; congruence.
 Qed.
+
+(* ------------------------------------------------------------------ one trade row *)
+Lemma to_nl_rest L2 : to_nl (prerow_rest ++ L2) = Some L2.
+Proof. reflexivity. Qed.
+Lemma upper_nonspace c : is_upper c = true -> nonspace c = true.
+Proof.
+  intros H. unfold nonspace. apply negb_true_iff. unfold is_upper in H. range_tac. unfold is_space.
+  repeat match goal with |- (_ || _) = false => apply orb_false_iff; split end;
+  try (apply N.eqb_neq; lia); apply andb_false_iff; first [left; apply N.leb_gt; lia | right; apply N.leb_gt; lia].
+Qed.
+
+Lemma pre_rest_eval td sd sym act qty pa pb L2 c f rest :
+  sym <> [] -> forallb nonspace sym = true -> act <> [] -> forallb nonspace act = true ->
+  digits qty -> qty <> [] -> decparts pa pb ->
+  r2_lines L2 = Some (c, f, rest) ->
+  pre_rest td sd (sym ++ 32 :: act ++ 32 :: qty ++ 32 :: 36 :: pa ++ 46 :: pb ++ prerow_rest ++ L2)
+  = Some ({| cp_td := td; cp_sd := sd; cp_sym := sym; cp_act := act; cp_n := qty; cp_price := pa ++ 46 :: pb;
+             cp_comm := c; cp_fee := f |}, rest).
+Proof.
+  intros S1 S2 A1 A2 Q1 Q2 HP HR. dsplit HP. unfold pre_rest.
+  rewrite (run1_all nonspace sym) by (auto; reflexivity). cbn [obind]. rewrite sp1_sp. cbn [obind].
+  rewrite (skip_nonspace_fld act) by auto. rewrite (run1_all nonspace act) by (auto; reflexivity). cbn [obind].
+  rewrite sp1_sp. cbn [obind]. rewrite skip_digits by auto. rewrite nd_run1 by (auto; reflexivity). cbn [obind].
+  rewrite sp1_sp. cbn [obind].
+  change (skip_spaces (36 :: pa ++ 46 :: pb ++ prerow_rest ++ L2)) with (36 :: pa ++ 46 :: pb ++ prerow_rest ++ L2).
+  cbn [chr N.eqb Pos.eqb obind]. rewrite dd_hit by (auto; reflexivity). cbn [obind].
+  rewrite to_nl_rest. cbn [obind]. rewrite HR. reflexivity.
+Qed.
+
+Lemma updot_not_digit c : is_updot c = true -> is_digit c = false.
+Proof.
+  unfold is_updot, is_digit, is_upper, is_dot. intros H. apply orb_true_iff in H. destruct H as [H|H].
+  - range_tac. apply andb_false_iff. right. apply N.leb_gt. lia.
+  - apply N.eqb_eq in H. subst c. reflexivity.
+Qed.
+
+Definition pmkt (st : bool) : text := sty st prerow0_mkt prerow1_mkt.
+
+Lemma m_pre_row_eval st m1 d1 y1 m2 d2 y2 sym act qty pa pb L2 c f rest :
+  digits m1 -> digits d1 -> digits y1 -> m1 <> [] -> d1 <> [] -> y1 <> [] ->
+  digits m2 -> digits d2 -> digits y2 -> m2 <> [] -> d2 <> [] -> y2 <> [] ->
+  sym <> [] -> forallb is_updot sym = true -> act <> [] -> forallb is_upper act = true ->
+  digits qty -> qty <> [] -> decparts pa pb ->
+  r2_lines L2 = Some (c, f, rest) ->
+  m_pre_row (m1 ++ 47 :: d1 ++ 47 :: y1 ++ 32 :: m2 ++ 47 :: d2 ++ 47 :: y2 ++ pmkt st
+             ++ sym ++ 32 :: act ++ 32 :: qty ++ 32 :: 36 :: pa ++ 46 :: pb ++ prerow_rest ++ L2)
+  = Some ({| cp_td := (m1, d1, y1); cp_sd := (m2, d2, y2); cp_sym := sym; cp_act := act; cp_n := qty;
+             cp_price := pa ++ 46 :: pb; cp_comm := c; cp_fee := f |}, rest).
+Proof.
+  intros M1 D1 Y1 NM1 ND1 NY1 M2 D2 Y2 NM2 ND2 NY2 S1 S2 A1 A2 Q1 Q2 HP HR.
+  assert (SN : forallb nonspace sym = true) by (apply (forallb_imp is_updot); [exact updot_nonspace|exact S2]).
+  assert (AN : forallb nonspace act = true) by (apply (forallb_imp is_upper); [exact upper_nonspace|exact A2]).
+  pose proof (pre_rest_eval (m1, d1, y1) (m2, d2, y2) sym act qty pa pb L2 c f rest S1 SN A1 AN Q1 Q2 HP HR) as PR.
+  set (X := sym ++ 32 :: act ++ 32 :: qty ++ 32 :: 36 :: pa ++ 46 :: pb ++ prerow_rest ++ L2) in *.
+  assert (HX : skip_spaces X = X) by (apply skip_nonspace_fld; assumption).
+  assert (HD : run1 is_digit X = None).
+  { apply run1_hd. unfold X. destruct sym as [|s0 sym']; [congruence|]. cbn [app hd_in].
+    cbn [forallb] in S2. apply andb_true_iff in S2. apply updot_not_digit. exact (proj1 S2). }
+  unfold m_pre_row. rewrite date3_hit by (auto; reflexivity). cbn [obind]. rewrite sp1_sp. cbn [obind].
+  rewrite skip_digits by auto.
+  replace (m2 ++ 47 :: d2 ++ 47 :: y2 ++ pmkt st ++ X) with (m2 ++ 47 :: d2 ++ 47 :: y2 ++ 32 :: (tl (pmkt st) ++ X))
+    by (destruct st; reflexivity).
+  rewrite date3_hit by (auto; reflexivity). cbn [obind]. rewrite sp1_sp. cbn [obind].
+  destruct st.
+  - (* " 6 1 " *)
+    change (skip_spaces (tl (pmkt true) ++ X)) with (54 :: 32 :: 49 :: 32 :: X).
+    change (run1 is_digit (54 :: 32 :: 49 :: 32 :: X)) with (Some ([54], 32 :: 49 :: 32 :: X)). cbn [obind].
+    change (skip_spaces (32 :: 49 :: 32 :: X)) with (49 :: 32 :: X).
+    change (run1 is_digit (49 :: 32 :: X)) with (Some ([49], 32 :: X)). cbn [obind].
+    rewrite sp1_sp, HX. cbn [obind]. rewrite PR. reflexivity.
+  - (* " 61 " *)
+    change (skip_spaces (tl (pmkt false) ++ X)) with (54 :: 49 :: 32 :: X).
+    change (run1 is_digit (54 :: 49 :: 32 :: X)) with (Some ([54; 49], 32 :: X)). cbn [obind].
+    change (skip_spaces (32 :: X)) with (skip_spaces X). rewrite HX, HD. cbn [obind length Nat.leb].
+    rewrite sp1_sp, HX. cbn [obind]. exact PR.
+Qed.
